@@ -61,6 +61,8 @@ Poll ==
 Next == Edit \/ Poll
 \* ConfigReloader::run: thread::sleep(rate) before every poll, with the rate of that moment (the initial one from
 \* init_file, afterwards the one of the last applied file)
+\* (how long the poll before it took plays no part: a reload that costs more than the rate - a slow appender to
+\* build - is followed by a sleep of the full rate like any other; the live scenarios have one such reload)
 Sleeps(ms) == alive /\ ms = rate
 Spec == Init /\ [][Next]_vars
 \* a changed valid file is applied together with its refresh rate
